@@ -1,6 +1,6 @@
 from fsv import Query
 
-EXPLANATION = ('(i) spl_eroder::set_slope_exp executed symbolically for every binary64 exponent (classification linear / Newton, rejection on multiple-direction graphs)')
+EXPLANATION = ('(ii) spl_eroder::erode, linear case, on concrete graph structures with symbolic elevation/area/K/dt/weights/distances: per node, the erosion equals old - new with new the direct solution of the discrete equation; (i) spl_eroder::set_slope_exp executed symbolically for every binary64 exponent (classification linear / Newton, rejection on multiple-direction graphs)')
 ASSUMPTIONS = ['flow graph: harness type exposing a real flow_graph_impl (units/spl.cpp); the eroder only uses impl(), size(), grid_shape(), single_flow()']
 
 
@@ -9,6 +9,18 @@ def queries(tier, kfs):
     for single in (1, 0):
         qs.append(Query('classify.%s' % ('single' if single else 'multi'), 'spl.cpp', 'c13_linear.c', dict(FSV_N=3, FSV_D=2, FSV_SINGLE=single),
                         dict(SINGLE=single), unwind=16, bounds=dict(n='every non-NaN binary64', graph='single' if single else 'multi')))
-    # (ii) linear-case equivalence queries (harness/c13_erode.c) are NOT run: no verdict within 200-500 s (cvc5 and SAT) even for a
-    # 3-node chain, see DESIGN.md; the harness is kept for reference only
+    # (ii) linear case n = 1: erosion_i == old_i - new_i with new_i the direct solution of the backward-Euler equation
+    # (limited at the receivers' new level, zero in lakes and at self receivers), decided PER NODE (cone of influence), cvc5/cadical race
+    structs = [(1, 3, 2, 1, 1, 1, (0, 1, 2)), (2, 4, 2, 1, 0, 1, (1, 2)), (3, 4, 2, 0, 0, 1, (1, 2)), (4, 4, 2, 1, 1, 1, (1, 2, 3))]
+    if tier != 'quick':
+        structs += [(2, 4, 2, 1, 0, 1, (3,)), (3, 4, 2, 0, 0, 1, (3,)), (1, 3, 2, 1, 1, 2, (1, 2)), (5, 5, 2, 0, 0, 1, (1, 2))]
+    for (sid, n, d, single, kscalar, rounds, nodes) in structs:
+        for node in nodes:
+            for mexp in (('1.0', '0.5') if (tier != 'quick' or (sid, node) in ((1, 1),)) else ('1.0',)):
+                qs.append(Query('erode_linear.struct%d.node%d.m%s.r%d' % (sid, node, mexp, rounds), 'spl.cpp', 'c13_erode.c',
+                                dict(FSV_N=n, FSV_D=d, FSV_SINGLE=single),
+                                dict(N=n, D=d, SINGLE=single, STRUCT=sid, K_SCALAR=kscalar, ROUNDS=rounds, ONLY_NODE=node, MEXP=mexp, FSV_POW_SEQ=1),
+                                unwind=max(16, n * (d + 1) + 3), solver='race', timeout=1200 if tier == 'quick' else 7200,
+                                bounds=dict(N=n, structure=sid, node=node, direction='single' if single else 'multi', k='scalar' if kscalar else 'array',
+                                            area_exponent=mexp, steps=rounds, symbolic='elevation, area, K, dt, weights, distances')))
     return qs
